@@ -230,7 +230,8 @@ def trans(potential_forms, potential_form_builder):
     raise ConfigurationException("trans() potential modifier only accepts two arguments")
 
   second_form = potential_forms[1]
-  if second_form.potential_form != 'as.constant':
+  # The second argument may have been given as a modifier e.g. sum(...), which has no potential_form attribute.
+  if getattr(second_form, "potential_form", None) != 'as.constant':
     raise ConfigurationException("the second argument to the trans() potential modifier must be 'as.constant' found {}".format(second_form))
 
   if len(second_form.parameters) != 1:
